@@ -34,7 +34,7 @@ ASSUMPTIONS = [
     "for WOFF2 sources the tag->bytes model of transformed tables comes from fontTools' own reconstruction",
     "the dependency closure of a touch set is an over-approximation measured on the pinned tree and widened by code reading",
 ]
-EXPECTED_PROBES = ["foreign.cmap", "foreign.GPOS", "passthrough.no_decoder_checked", "passthrough.tables_checked", "content.tables_checked", "fixedpoint.checked", "source.short", "source.unseekable", "lazy.True"]
+EXPECTED_PROBES = ["foreign.cmap", "foreign.GPOS", "foreign.glyf", "foreign.VDMX", "foreign.hdmx", "foreign.LTSH", "passthrough.no_decoder_checked", "passthrough.tables_checked", "content.tables_checked", "fixedpoint.checked", "source.short", "source.unseekable", "lazy.True"]
 
 TIERS = {
     "quick": {"budget_s": 600, "determinism_sample": 12, "n": {"sweep": 9000}, "minimise_s": 40, "max_minimise": 3},
@@ -96,7 +96,7 @@ RECALCULATED = {"head", "hhea", "vhea", "maxp", "CFF ", "glyf", "loca"}
 
 import re
 
-_MASK = re.compile(r'^\s*<(checkSumAdjustment|usFirstCharIndex|usLastCharIndex|psName) [^>]*/>\s*$', re.M)
+_MASK = re.compile(r'^\s*<(checkSumAdjustment|indexToLocFormat|usFirstCharIndex|usLastCharIndex|psName) [^>]*/>\s*$', re.M)
 
 
 def mask_derived(xml):
@@ -157,6 +157,10 @@ def _inputs():
             out.append(("bin", rel, 0))
     for rel in corpus.ttx_files():
         out.append(("ttx", rel, 0))
+    # table samples embedded in the repository's table unit tests (kern, mort, morx, trak, ... - kinds no
+    # corpus font has), each carried by a small TrueType font
+    for k in corpus.blob_keys():
+        out.append(("blob", k, 0))
     return out
 
 
@@ -173,6 +177,8 @@ def batches(ctx):
 def _source_bytes(kind, rel):
     if kind == "bin":
         return corpus.raw(rel)
+    if kind == "blob":
+        return corpus.blob_font(rel)
     # a TTX file is an input only if it is a complete font: compiling it, decoding every table
     # and saving must work at all (partial dumps and hand-made invalid masters are not fonts)
     g = corpus.compute_gen2_cached("ttx:" + rel)
@@ -214,7 +220,7 @@ def generate(ctx, batch, idx):
         "probe_keys": r.random() < 0.5,
         # transplant tables the library has no decoder for (sfnt sources only)
         # tables as another conforming writer stores them (oracles.foreign; sfnt sources only)
-        "foreign": {"cmap": r.randrange(1 << 30) if r.random() < 0.12 else None, "gpos": r.randrange(1 << 30) if r.random() < 0.12 else None},
+        "foreign": {"cmap": r.randrange(1 << 30) if r.random() < 0.12 else None, "gpos": r.randrange(1 << 30) if r.random() < 0.12 else None, "glyf": r.randrange(1 << 30) if r.random() < 0.12 else None, "dev": r.randrange(1 << 30) if r.random() < 0.1 else None},
         "opaque": [[r.choice(["ZZZZ", "Xtra", "zz  ", "TeSt"]), r.choice([0, 1, 2, 3, 4, 7, 64]), r.choice(["nuls", "random", "nul-tail"]), r.randrange(1 << 30)] for _ in range(r.choice([0, 0, 1, 2]))],
     }
 
@@ -311,7 +317,7 @@ def _execute(ctx, h, scratch):
             pass
     foreign_tags = []
     fg = h.get("foreign") or {}
-    if (fg.get("cmap") is not None or fg.get("gpos") is not None) and container.kind_of(src) == "sfnt":
+    if any(fg.get(k_) is not None for k_ in ("cmap", "gpos", "glyf", "dev")) and container.kind_of(src) == "sfnt":
         try:
             tabs = dict(container.tables_of(src))
             if fg.get("cmap") is not None and "cmap" in tabs:
@@ -324,6 +330,20 @@ def _execute(ctx, h, scratch):
                 if g is not None:
                     tabs["GPOS"] = g[0]
                     foreign_tags.append("GPOS")
+            if fg.get("dev") is not None and "glyf" in tabs and "maxp" in tabs and len(tabs["maxp"]) >= 6:
+                # device-metrics tables of rasteriser-tuned TrueType fonts (no corpus font has them)
+                rr = prng.sub("fdev", fg["dev"])
+                ng_ = struct.unpack_from(">H", tabs["maxp"], 4)[0]
+                for t, mk in (("VDMX", lambda: foreign.vdmx(rr)), ("hdmx", lambda: foreign.hdmx(ng_, rr)), ("LTSH", lambda: foreign.ltsh(ng_, rr))):
+                    if t not in tabs and rr.random() < 0.7:
+                        tabs[t] = mk()
+                        foreign_tags.append(t)
+            if fg.get("glyf") is not None and "glyf" in tabs:
+                rr = prng.sub("fglyf", fg["glyf"])
+                v = container.foreign_variant(container.rebuild_sfnt(src[:4], tabs), longloca=rr.random() < 0.4, loosebbox=rr.choice([None, rr.randrange(1 << 16)]), compflags=rr.choice([None, rr.randrange(1 << 16), rr.randrange(1 << 16)]), emptyinstr=rr.choice([None, rr.randrange(1 << 16)]))
+                if v is not None:
+                    tabs = dict(container.tables_of(v))
+                    foreign_tags.append("glyf")
             if foreign_tags:
                 fsrc = container.rebuild_sfnt(src[:4], tabs)
                 if container.validate_any(fsrc)[2]:
@@ -450,7 +470,7 @@ def _execute(ctx, h, scratch):
             sample = [t for t in sample if t not in RECALCULATED]
         if len(sample) > 4:
             sample = prng.sub("content", prng.digest(h)).sample(sample, 4)
-        sample += [t for t in foreign_tags if t in loaded and t not in sample]
+        sample += [t for t in foreign_tags if t in loaded and t not in sample and not (h["recalcBBoxes"] and t in RECALCULATED)]
         for t in sample:
             if model[t] == got.get(t):
                 probes["content.byte_identical"] = probes.get("content.byte_identical", 0) + 1
@@ -530,7 +550,7 @@ def simplify(ctx, h):
         c = copy.deepcopy(h)
         c["lazy"] = None
         yield c
-    for k in ("cmap", "gpos"):
+    for k in ("cmap", "gpos", "glyf", "dev"):
         if (h.get("foreign") or {}).get(k) is not None:
             c = copy.deepcopy(h)
             c["foreign"][k] = None
